@@ -125,6 +125,61 @@ pub fn scc_case<F: Flavour>(c: &SccCase, st: &mut Stats, counting: bool) -> bool
     if counting {
         st.class_n("scc.distinct-container-iteration-orders-seen", seen_orders.len() as u64);
     }
+    // the same container asked again after its edges were rewired (same number of nodes and edges):
+    // variant 0 reverses every edge, variant 1 reverses the first edge only, variant 2 redirects the last edge
+    if ok && !c.g.edges.is_empty() {
+        for variant in 0..3 {
+            let mut g2 = c.g.clone();
+            match variant {
+                0 => g2.edges = c.g.edges.iter().map(|&(u, v, e)| (v, u, e)).collect(),
+                1 => {
+                    let (u, v, e) = g2.edges[0];
+                    g2.edges[0] = (v, u, e);
+                }
+                _ => {
+                    let l = g2.edges.len() - 1;
+                    let (u, v, e) = g2.edges[l];
+                    g2.edges[l] = (u, ((v as usize + 1) % c.g.n) as Key, e);
+                }
+            }
+            if g2.edges == c.g.edges {
+                continue;
+            }
+            let (graph, nodes) = build_graph::<F>(&c.g, &orders(c.g.n, variant));
+            if counting {
+                st.eval();
+                st.class("scc.second-call-after-rewiring-the-same-container");
+            }
+            let r = catch_unwind(AssertUnwindSafe(|| {
+                let _first = F::g_scc(&graph);
+                for &(u, v, _) in &c.g.edges {
+                    let _ = F::disconnect(&nodes[u as usize], v);
+                }
+                for &(u, v, e) in &g2.edges {
+                    F::connect(&nodes[u as usize], &nodes[v as usize], e);
+                }
+                F::g_scc(&graph).iter().map(|comp| comp.iter().map(|n| F::key(n)).collect::<Vec<Key>>()).collect::<Vec<_>>()
+            }));
+            let expect2 = scc_model(g2.n, &g2.edges);
+            let bad = match r {
+                Err(p) => Some(("scc.panic", panic_msg(p))),
+                Ok(comps) => {
+                    let got: BTreeSet<BTreeSet<Key>> = comps.iter().map(|x| x.iter().cloned().collect()).collect();
+                    let total: usize = comps.iter().map(|x| x.len()).sum();
+                    if total != c.g.n || got != expect2 {
+                        Some(("scc.second-call-on-the-same-container-wrong", format!("after rewiring to {:?}: got {:?}, components are {:?}", g2.edges, comps, expect2)))
+                    } else {
+                        None
+                    }
+                }
+            };
+            if let Some((clause, detail)) = bad {
+                ok = false;
+                st.report(Finding { property: "C11".into(), flavour: F::NAME.into(), clause: clause.into(), signature: format!("{} | scc | {}", F::NAME, clause), case: json!({"kind": "scc", "flavour": F::NAME, "g": c.g, "instances": 8, "note": "fails on the second scc() after the edges were rewired through the nodes"}), detail });
+                break;
+            }
+        }
+    }
     ok
 }
 
